@@ -3,7 +3,7 @@ from __future__ import annotations
 
 import ast
 
-from ..cfg import CFG, branch_conditions
+from ..cfg import CFG, atomic_conditions, branch_conditions
 from ..fsmodel import is_name, names_in
 from ..report import Run
 from ..resolve import Resolver
@@ -658,13 +658,22 @@ def _document_level(run: Run, vm, rule: str = "R08.6") -> None:
         conds = branch_conditions(cfg, a.id)
         tests = [ast.unparse(t) for t, val in conds if val is True]
         guard_ok = "has_req and value is None" in tests or "value is None and has_req" in tests
+        if not guard_ok:
+            # the same two conditions as nested tests, has_req possibly written out in place
+            atoms = [(ast.unparse(t), val) for t, val in atomic_conditions(cfg, a.id)]
+            none_atom = ("value is None", True) in atoms or ("value is not None", False) in atoms
+            req_atom = ("has_req", True) in atoms or any(val is True and txt.startswith("any(") and "isinstance(c, RequiredConstraint)" in txt for txt, val in atoms)
+            inline_req = not any(txt == "has_req" for txt, _ in atoms) and req_atom
+            guard_ok = none_atom and req_atom
+        else:
+            inline_req = False
         call = [c for c in ast.walk(a.ast) if isinstance(c, ast.Call) and ast.unparse(c.func) == "ValidationError"][0]  # type: ignore[arg-type]
         kw = {k.arg: k.value for k in call.keywords}
         path_ok = "field_path" in kw and isinstance(kw["field_path"], ast.Name)
         vdefs = [n.value for n in walk_no_nested(vs.node) if isinstance(n, ast.Assign) and any(is_name(t, "value") for t in n.targets)]
         val_ok = len(vdefs) == 1 and ast.unparse(vdefs[0]) == "present_fields.get(field_name)"
         hdefs = [n.value for n in walk_no_nested(vs.node) if isinstance(n, ast.Assign) and any(is_name(t, "has_req") for t in n.targets)]
-        has_ok = len(hdefs) == 1 and "isinstance(c, RequiredConstraint)" in ast.unparse(hdefs[0]) and ast.unparse(hdefs[0]).startswith("any(")
+        has_ok = (len(hdefs) == 1 and "isinstance(c, RequiredConstraint)" in ast.unparse(hdefs[0]) and ast.unparse(hdefs[0]).startswith("any(")) or (inline_req and not hdefs)
         ok = guard_ok and path_ok and val_ok and has_ok
         detail = f"guard `has_req and value is None`={guard_ok}, names the field={path_ok}, value=present_fields.get(field_name)={val_ok}, has_req=any(REQ member)={has_ok}"
     run.instance(rule, vm.loc(vs.node), f"_validate_section: missing required field -> E003 ({detail})", ok=ok)
@@ -683,7 +692,10 @@ def _document_level(run: Run, vm, rule: str = "R08.6") -> None:
     ev = [n for n in walk_no_nested(vs.node) if isinstance(n, ast.Call) and isinstance(n.func, ast.Attribute) and n.func.attr == "evaluate" and _receiver_text(n).endswith(".constraints")]
     ok = len(ev) == 1 and {k.arg: ast.unparse(k.value) for k in ev[0].keywords} == {"value": "value", "path": "field_path"}
     loops = [n for n in walk_no_nested(vs.node) if isinstance(n, ast.For) and ast.unparse(n.iter) == "result.errors"]
-    ok = ok and len(loops) == 1 and not any(isinstance(x, (ast.If, ast.Break, ast.Continue)) for st in loops[0].body for x in ast.walk(st))
+    # ... or `self.errors.extend(<one entry per element of result.errors, unfiltered>)`
+    exts = [n for n in walk_no_nested(vs.node) if isinstance(n, ast.Call) and isinstance(n.func, ast.Attribute) and n.func.attr == "extend" and ast.unparse(n.func.value) == "self.errors" and len(n.args) == 1 and isinstance(n.args[0], (ast.GeneratorExp, ast.ListComp)) and len(n.args[0].generators) == 1 and ast.unparse(n.args[0].generators[0].iter) == "result.errors"]
+    conv_ok = (len(loops) == 1 and not exts and not any(isinstance(x, (ast.If, ast.Break, ast.Continue)) for st in loops[0].body for x in ast.walk(st))) or (len(exts) == 1 and not loops and not exts[0].args[0].generators[0].ifs and not any(isinstance(x, ast.IfExp) for x in ast.walk(exts[0].args[0].elt)))  # type: ignore[attr-defined]
+    ok = ok and conv_ok
     run.instance(rule, vm.loc(vs.node), "_validate_section: the chain is evaluated on the present value and every one of its errors is reported", ok=ok)
     if not ok:
         run.violation(rule, vm, vs.qualname, "chain evaluation and error conversion", "the field's chain is not evaluated on (value, field_path) or its errors are filtered before being reported")
@@ -691,6 +703,13 @@ def _document_level(run: Run, vm, rule: str = "R08.6") -> None:
     # (a branch that only records constants before its `continue` is still just a skip)
     skips = [n for n in walk_no_nested(vs.node) if isinstance(n, ast.If) and n.body and isinstance(n.body[-1], ast.Continue) and all(isinstance(b, ast.Assign) and (isinstance(b.value, ast.Constant) or (isinstance(b.value, ast.Attribute) and b.value.attr.isupper())) for b in n.body[:-1]) and "value" in names_in(n.test) and "has_req" not in names_in(n.test)]
     ok = len(skips) == 1 and ast.unparse(skips[0].test) == "value is None"
+    if not ok and len(ev) == 1:
+        # decided at the evaluation itself: of the conditions under which the chain is evaluated, the only ones that look at the
+        # value say that it is not None
+        evn = [n for n in cfg.nodes if n.ast is not None and any(x is ev[0] for x in ast.walk(n.ast))]
+        if len(evn) == 1:
+            atoms = [(ast.unparse(t), val) for t, val in atomic_conditions(cfg, evn[0].id) if "value" in names_in(t)]
+            ok = bool(atoms) and all(a_ in (("value is None", False), ("value is not None", True)) for a_ in atoms)
     run.instance(rule, vm.loc(vs.node), "_validate_section: only an absent value (None) skips chain evaluation", ok=ok)
     if not ok:
         run.violation(rule, vm, vs.qualname, "if value is None: continue", "chain evaluation is skipped for something other than an absent (None) value")
